@@ -14,7 +14,8 @@ def run(ctx):
                        "over-quota queues running preemptible work, pending reclaimers of several shapes, saturation multipliers 1-2; "
                        "non-trivial = the real scheduler committed at least one reclaim eviction; per-queue allocations are recomputed "
                        "by the spec from pods, fair shares are the session's (their contract is C09)")
-    ctx.assumptions += ["the saturation-ordering clause is exercised through C15 (no eviction livelock) rather than stated per statement: "
-                        "TLC's 32-bit integers cannot cross-multiply the float ratios without losing the precision the comparison needs"]
+    ctx.assumptions += ["saturation clause (C07_Saturation): ratios are cross-multiplied on recomputed allocations; the session's float fair "
+                        "shares are logged rounded to 1/1000 GPU, 1 milli-CPU, 1 MB - when the logged value is not exact a violation is "
+                        "reported only if it survives the rounding error"]
     n = 400 if ctx.quick else 10000
-    st_cluster.run_stage(ctx, PREFIXES, [("full", n // 4), ("closed", n // 8), ("mixed", n // 8), ("reclaim2", n // 2)], nontrivial_fn=nontrivial)
+    st_cluster.run_stage(ctx, PREFIXES, [("full", n // 4), ("closed", n // 8), ("mixed", n // 8), ("reclaim2", n // 4), ("sat", n // 2)], nontrivial_fn=nontrivial)
